@@ -485,6 +485,14 @@ async def _run_acts(ctx, ev, sp, prog, att, v, uid, bid):
                 async with ctx.store.edit_state() as s:
                     s[act["key"]] = s.get(act["key"], 0) + 1
             r.add("state", step=step, bid=bid, op=op, key=act["key"])
+        elif k == "hop":
+            # a self-feeding chain: hand back an event of the step's own input type until the counter in the payload runs out
+            left = int(ev.get("left", 0) or 0)
+            if left > 0:
+                e = mk_event(act["type"], f"{v}>{step}.h", {"left": left - 1, "chain": ev.get("chain", None)})
+                r.add("emit", how="return", step=step, bid=bid, att=att, uid=e.get("uid"), v=e.get("v"), type=act["type"], target=None, parent=uid)
+                return e
+            return _ret_value({"k": "ret", "type": act["done"]}, ev, sp, prog, att, v, uid, bid, local)
         elif k == "ret":
             state_val = None
             if act.get("result") == "state" and act.get("type") in ("StopEvent", "Done"):
@@ -512,6 +520,8 @@ def _produced_types(sp):
     for act in sp["acts"]:
         if act["k"] in ("send", "sendm", "ret") and act.get("type") not in (None, "nonevent", "nonevent_falsy"):
             out.append(act["type"])
+        if act["k"] == "hop":
+            out += [act["type"], act["done"]]
     return out
 
 
